@@ -644,8 +644,14 @@ def case_a(ctx, member):
 def case_small(ctx, member, text, tag, claim=True, stdin=None):
     out = ctx.out
     ctx.write('s.asm', text)
-    r = ctx.run('asl', ['s.asm', '-o', 'x.p', '-q'], env=ASL_ENV if claim else ASL_ENV_NOCLAIM, timeout=60 if claim else 40, retry=claim,
+    r = ctx.run('asl', ['s.asm', '-o', 'x.p', '-q'], env=ASL_ENV if claim else ASL_ENV_NOCLAIM, timeout=20 if claim else 40, retry=claim,
                 stdin=b'' if stdin is None else stdin)
+    if r.timed_out and claim and len(text) < 4096:
+        # neither 20 s nor the second run with 100 s sufficed for a source of a few lines that contains no loop construct and no large
+        # count, while the line budget (which counts source lines, not time) was not exhausted: one statement does not return
+        show = text if isinstance(text, str) else repr(text[:300])
+        out.violate('hang:asl:statement-does-not-return', '%s: source %r: no exit within 20 s and 100 s' % (tag, show[:400]))
+        return
     key = judge_asl(out, r, tag, claim_termination=claim)
     if key:
         show = text if isinstance(text, str) else repr(text[:300])
